@@ -48,10 +48,9 @@ def interpScalar (ext : Ext) (dt : DataType) (x : SVal) : R LVal :=
       | .bytes b => if (b.length : Int) = n then .ok (.bin b) else fail "wrong length"
       | _ => fail "not bytes"
     | .dictionary _ _ =>
-      match x with
-      | .str s => .ok (.str (strBytes s))
-      | .unitVariant _ _ vn => .ok (.str (strBytes vn))
-      | _ => fail "not a string"
+      match scalarToString ext x with
+      | some s => .ok (.str (strBytes s))
+      | none => fail "not a string"
     | .null =>
       match x with
       | .unitStruct _ => .ok .null
@@ -97,7 +96,21 @@ def interpDT (ext : Ext) (dt : DataType) (nullable : Bool) (md : Metadata) : SVa
   | .some v => interpDT ext dt nullable md v
   | .newtypeStruct _ v => interpDT ext dt nullable md v
   | .none | .unit => interpNull dt nullable md
-  | .seq xs | .tuple xs | .tupleStruct _ xs =>
+  | .seq xs =>
+    if isUnknownVariant dt md then fail "unknown variant" else
+    match dt with
+    | .list (.mk _ cdt cn cmd) | .largeList (.mk _ cdt cn cmd) => do
+      pure (.list (LVals.ofList (← interpAll ext cdt cn cmd xs)))
+    | .fixedSizeList (.mk _ cdt cn cmd) n => do
+      let vs ← interpAll ext cdt cn cmd xs
+      if (vs.length : Int) = n then pure (.list (LVals.ofList vs)) else fail "wrong element count"
+    | .binary | .largeBinary | .binaryView => do pure (.bin (← u8All xs))
+    | .fixedSizeBinary n => do
+      let b ← u8All xs
+      if (b.length : Int) = n then pure (.bin b) else fail "wrong length"
+    | .struct _ => fail "a sequence is not a presentation of a record"
+    | _ => fail "not a sequence type"
+  | .tuple xs | .tupleStruct _ xs =>
     if isUnknownVariant dt md then fail "unknown variant" else
     match dt with
     | .list (.mk _ cdt cn cmd) | .largeList (.mk _ cdt cn cmd) => do
@@ -260,6 +273,30 @@ def opsKeysAreStrings : SMapOps → R Unit
     let _ ← keyStr k
     opsKeysAreStrings rest
   | .value _ rest => opsKeysAreStrings rest
+end
+
+mutual
+/-- does the value contain a malformed map call stream anywhere (value without key, key without value)? -/
+def containsMalformed : SVal → Bool
+  | .some v | .newtypeStruct _ v | .newtypeVariant _ _ _ v => containsMalformed v
+  | .seq xs | .tuple xs | .tupleStruct _ xs | .tupleVariant _ _ _ xs => anyMalformed xs
+  | .record _ fs | .structVariant _ _ _ fs => anyMalformedF fs
+  | .map es => anyMalformedE es
+  | .mapRaw ops => !isAlternating ops || anyMalformedO ops
+  | _ => false
+def anyMalformed : SVals → Bool
+  | .nil => false
+  | .cons x r => containsMalformed x || anyMalformed r
+def anyMalformedF : SFields → Bool
+  | .nil => false
+  | .cons _ _ x r => containsMalformed x || anyMalformedF r
+def anyMalformedE : SEntries → Bool
+  | .nil => false
+  | .cons k x r => containsMalformed k || containsMalformed x || anyMalformedE r
+def anyMalformedO : SMapOps → Bool
+  | .nil => false
+  | .key k r => containsMalformed k || anyMalformedO r
+  | .value x r => containsMalformed x || anyMalformedO r
 end
 
 def interp (ext : Ext) : Field → SVal → R LVal
